@@ -71,12 +71,53 @@ type Value struct {
 	Parts *types.PartSet
 }
 
-type nopExec struct{}
+// simExec stands in for Angine as the state's block executable: EndBlock applies the scripted validator-set change of the
+// height the way plugin.AdminOp.updateValidators does (Update of the power, Add, Remove on the next validator set).
+type simExec struct{ s *Sim }
 
-func (nopExec) BeginBlock(*types.Block, events.Fireable, *types.PartSetHeader) error { return nil }
-func (nopExec) ExecBlock(*types.Block, events.Fireable, *types.ExecuteResult) error   { return nil }
-func (nopExec) EndBlock(*types.Block, events.Fireable, *types.PartSetHeader, []*types.ValidatorAttr, *types.ValidatorSet) error {
+func (simExec) BeginBlock(*types.Block, events.Fireable, *types.PartSetHeader) error { return nil }
+func (simExec) ExecBlock(*types.Block, events.Fireable, *types.ExecuteResult) error   { return nil }
+func (e simExec) EndBlock(b *types.Block, _ events.Fireable, _ *types.PartSetHeader, _ []*types.ValidatorAttr, next *types.ValidatorSet) error {
+	e.s.ApplyChange(next, b.Height+1)
 	return nil
+}
+
+// PowersAt returns the voting powers in force at height h.
+func (s *Sim) PowersAt(h int64) []int64 {
+	cur := s.Powers
+	var best int64
+	for k, v := range s.NextPower {
+		if k <= h && k > best {
+			best, cur = k, v
+		}
+	}
+	return cur
+}
+
+// ApplyChange turns the validator set of height h-1 into the one of height h (before IncrementAccum).
+func (s *Sim) ApplyChange(next *types.ValidatorSet, h int64) {
+	to, ok := s.NextPower[h]
+	if !ok {
+		return
+	}
+	from := s.PowersAt(h - 1)
+	for i := range to {
+		if from[i] == to[i] {
+			continue
+		}
+		pub := s.Privs[i].PubKey()
+		addr := s.Addrs[i]
+		switch {
+		case to[i] == 0:
+			next.Remove(addr)
+		case from[i] == 0:
+			next.Add(types.NewValidator(pub, to[i], true))
+		default:
+			_, val := next.GetByAddress(addr)
+			val.VotingPower = to[i]
+			next.Update(val)
+		}
+	}
 }
 
 // Node is one honest validator process.
@@ -120,6 +161,7 @@ type Sim struct {
 	Log      []string
 	Notes    []string
 	probeSeq int
+	NextPower map[int64][]int64 // validator powers in force from height h on (validator-set changes applied by EndBlock of h-1)
 	Live     bool // real tickers and receiveRoutines (trace-recording mode)
 	LiveScale int // timeout scale in ms (propose = 6x, prevote/precommit = 3x, commit = 2x)
 }
@@ -156,7 +198,9 @@ func newSimScale(dir string, powers []int64, byz []int, maxRound int64, live boo
 	for i, k := range ks {
 		s.Privs = append(s.Privs, k.priv)
 		s.Addrs = append(s.Addrs, k.addr)
-		gen.Validators = append(gen.Validators, types.GenesisValidator{PubKey: k.priv.PubKey(), Amount: powers[i], Name: fmt.Sprintf("v%d", i+1), IsCA: true})
+		if powers[i] > 0 {
+			gen.Validators = append(gen.Validators, types.GenesisValidator{PubKey: k.priv.PubKey(), Amount: powers[i], Name: fmt.Sprintf("v%d", i+1), IsCA: true})
+		}
 	}
 	s.Genesis = gen
 	for i := 1; i <= s.N; i++ {
@@ -281,7 +325,7 @@ func (s *Sim) boot(n *Node, first bool) error {
 	if !s.Live {
 		cs.SetTimeoutTicker(n.Ticker)
 	}
-	st.SetBlockExecutable(nopExec{})
+	st.SetBlockExecutable(simExec{s})
 	st.SetBlockVerifier(cs)
 	n.CS = cs
 	n.Tocks = nil
@@ -457,7 +501,7 @@ func (s *Sim) Abstract(from int, m pbft.ConsensusMessage) (Msg, error) {
 			ty = "pc"
 		}
 		sym := s.SymOfHash(hexs(vt.BlockID.Hash))
-		return Msg{T: "V", H: vt.Height, R: vt.Round, Ty: ty, By: vt.ValidatorIndex + 1, V: sym}, nil
+		return Msg{T: "V", H: vt.Height, R: vt.Round, Ty: ty, By: s.idxOfAddr(hexs(vt.ValidatorAddress)), V: sym}, nil
 	}
 	return Msg{}, fmt.Errorf("unknown message type %T", m)
 }
@@ -542,7 +586,7 @@ func (s *Sim) Concrete(m Msg, ref *Node) (pbft.ConsensusMessage, error) {
 		if m.Ty == "pc" {
 			ty = types.VoteTypePrecommit
 		}
-		vt := &types.Vote{ValidatorAddress: s.Addrs[m.By-1], ValidatorIndex: m.By - 1, Height: m.H, Round: m.R, Type: ty, BlockID: id}
+		vt := &types.Vote{ValidatorAddress: s.Addrs[m.By-1], ValidatorIndex: s.indexAt(m.H, m.By), Height: m.H, Round: m.R, Type: ty, BlockID: id}
 		vt.Signature = s.Privs[m.By-1].Sign(types.SignBytes(ChainID, vt))
 		return &pbft.VoteMessage{Vote: vt}, nil
 	}
@@ -904,4 +948,16 @@ func normNew(v interface{}) interface{} {
 		return o
 	}
 	return v
+}
+
+// indexAt is the position (0-based) of validator `id` (1-based identity) in the validator set of height h.
+func (s *Sim) indexAt(h int64, id int) int {
+	pw := s.PowersAt(h)
+	idx := 0
+	for i := 0; i < id-1; i++ {
+		if pw[i] > 0 {
+			idx++
+		}
+	}
+	return idx
 }
